@@ -90,6 +90,10 @@ def classify(dest, src, strict):
             if strict:
                 if ddt is not None and sdt is not None and ddt != sdt:
                     up("must-raise-valueerror")
+                # the library reads a string value with a line break as 'text': whether a strict merge into a
+                # 'string' Property takes it is left open (it must be all or nothing either way)
+                if ddt == "string" and any(v[0] == "str" and "\\n" in v[1] for v in sp["values"]):
+                    up("may-raise")
                 for a in PROP_FILL:
                     c = attr_conflict(dp, sp, a)
                     if c == "hard":
